@@ -276,7 +276,7 @@ def _work(task):
     return check_program(task['src'], task['chain'], layout=task.get('layout'))
 
 
-DEPTH1_ONLY = {'nonlocal_', 'import_as', 'from_import_as', 'kwarg_xmod'}
+DEPTH1_ONLY = {'nonlocal_', 'import_as', 'from_import_as', 'kwarg_xmod', 'varargs_forward_kw'}
 
 
 def _levels(tier):
@@ -298,7 +298,7 @@ def _levels(tier):
         lv.append(('depth1: all carriers x all sources', list(pf.enumerate_programs(1))))
         lv.append(('depth2: all x multi-module x {inst,cls,func}',
                    [(s, [a, b]) for s in ['inst', 'cls', 'func'] for a in pf.CARRIER_NAMES
-                    if a not in DEPTH1_ONLY for b in multi]))
+                    if a not in DEPTH1_ONLY for b in multi if pf.applicable(s, [a, b])]))
         lv.append(('depth2: core pairs x {inst}', list(pf.enumerate_programs(2, ['inst'], core))))
     out = [(n, [dict(src=s, chain=c) for s, c in ts]) for n, ts in lv]
     xm = [c for c in multi if c not in DEPTH1_ONLY] + ['global_', 'global_rebind_fn', 'init_attr',
